@@ -1291,6 +1291,7 @@ func genC11(ctx *hx.Ctx, emit func(hx.Case)) {
 		}
 	}
 	c11GenChains(ctx, emit)
+	c11GenRootChains(ctx, emit)
 	c11GenOtherKind(ctx, emit)
 	// random stream
 	n := 2500
@@ -1307,7 +1308,9 @@ func genC11(ctx *hx.Ctx, emit func(hx.Case)) {
 func c11GenChains(ctx *hx.Ctx, emit func(hx.Case)) {
 	firsts := []c11Spelling{{"", "/r/a/", true}, {"../b/", "/r/b/", true}, {"sub/", "/r/a/sub/", true}, {"https://h.example/r/a/", "https://h.example/r/a/", true},
 		{"/r/b/", "/r/b/", true}, {"gone/", "", true}}
-	seconds := []string{"pi.json", "../c/pi.json", "../c/e.json#/paths/~1y", "#/paths/~1y", "#/paths/~1x", "e.json#/paths/~1nope", "http://other.example/pi.json"}
+	// "#/paths/~1z": a target that sorts LATER in the same document and is itself a reference (not resolved yet when it is copied)
+	seconds := []string{"pi.json", "../c/pi.json", "../c/e.json#/paths/~1y", "#/paths/~1y", "#/paths/~1x", "e.json#/paths/~1nope", "http://other.example/pi.json",
+		"#/paths/~1z", "#/paths/~1zz"}
 	i := 0
 	for _, f := range firsts {
 		for _, sec := range seconds {
@@ -1331,7 +1334,8 @@ func c11GenChains(ctx *hx.Ctx, emit func(hx.Case)) {
 						files := []any{c11Doc("/r/a/root.json", rootKid)}
 						if f.target != "" {
 							inl := c11With(c11NewEl("pathItem", ""), kid(c11NewEl("parameter", "p.json"), "parameters", "0"))
-							files = append(files, c11Doc(f.target+"d.json", kid(c11NewEl("pathItem", sec), "paths", "/x"), kid(inl, "paths", "/y")))
+							files = append(files, c11Doc(f.target+"d.json", kid(c11NewEl("pathItem", sec), "paths", "/x"), kid(inl, "paths", "/y"),
+								kid(c11NewEl("pathItem", "../c/pi.json"), "paths", "/z"), kid(c11NewEl("pathItem", "../c/e.json#/paths/~1y"), "paths", "/zz")))
 							// second hops, resolved against the first target's location
 							for _, t := range []string{"pi.json", "../c/pi.json"} {
 								loc := c11Resolve(f.target+"d.json", t)
@@ -1346,6 +1350,27 @@ func c11GenChains(ctx *hx.Ctx, emit func(hx.Case)) {
 						emit(c11Derive(hx.Case{"g": g}))
 					}
 				}
+			}
+		}
+	}
+}
+
+// c11GenRootChains: the same inside the root document: /x → "#/paths/~1y", /y → a reference (sorts later)
+func c11GenRootChains(ctx *hx.Ctx, emit func(hx.Case)) {
+	for _, sec := range []string{"pi.json", "../b/pi.json", "../b/e.json#/paths/~1y", "http://h.example/r/a/pi.json", "#/paths/~1x", "#/paths/~1z", "gone/pi.json"} {
+		for _, entry := range []string{"file", "dataWithPath", "data"} {
+			for _, allowed := range []bool{false, true} {
+				files := []any{c11Doc("/r/a/root.json", kid(c11NewEl("pathItem", "#/paths/~1y"), "paths", "/x"), kid(c11NewEl("pathItem", sec), "paths", "/y"),
+					kid(c11With(c11NewEl("pathItem", ""), kid(c11NewEl("parameter", "p.json"), "parameters", "0")), "paths", "/z"))}
+				for _, loc := range []string{"/r/a/pi.json", "/r/b/pi.json", "http://h.example/r/a/pi.json", "pi.json", "../b/pi.json"} {
+					files = append(files, c11Elem(loc, "pathItem", kid(c11NewEl("parameter", "p.json"), "parameters", "0")), c11Elem(c11Resolve(loc, "p.json"), "parameter"))
+				}
+				for _, loc := range []string{"/r/b/e.json", "../b/e.json"} {
+					files = append(files, c11Doc(loc, kid(c11With(c11NewEl("pathItem", ""), kid(c11NewEl("parameter", "q.json"), "parameters", "0")), "paths", "/y")),
+						c11Elem(c11Resolve(loc, "q.json"), "parameter"))
+				}
+				g := map[string]any{"allowed": allowed, "entry": entry, "root": "/r/a/root.json", "rootInStore": true, "files": c11DedupFiles(files)}
+				emit(c11Derive(hx.Case{"g": g}))
 			}
 		}
 	}
